@@ -23,7 +23,7 @@ Names == {"BoundsAccepted", "BoundsValueExact", "NonBoundsRejected", "GeoJsonExa
 Holds(name, e) ==
   CASE name = "BoundsAccepted" -> (e.a \in {"BoundsArg", "GeometryArg"} /\ IsBounds(e.s)) => Ok(e)
     [] name = "BoundsValueExact" ->
-         (e.a \in {"BoundsArg", "GeometryArg"} /\ IsBounds(e.s) /\ Ok(e)) =>
+         (e.a \in {"BoundsArg", "GeometryArg"} /\ IsBounds(e.s) /\ Ok(e) /\ InThousandths(e.s)) =>
             /\ e.obs.ok.type = "Polygon"
             /\ ToSet(e.obs.ok.verts) = BoxCorners(BoundsValue(e.s))
     [] name = "NonBoundsRejected" ->
